@@ -146,9 +146,15 @@ package curve
 //@ func (*Secp256k1Point).UnmarshalBinary
 //@   nopanic[C05,C15]
 //@   requires p != nil
+//@   modifies ptval(p)
+//@   ensures[C15] result == nil ==> len(data) == 33
 //@ func (*Secp256k1Scalar).MarshalBinary
 //@   nopanic[C05]
 //@   requires s != nil
+//@   modifies nothing
+//@   allocates
+//@   ensures result1 == nil && len(result0) == 32 && fresh(result0)
+//@   summary bval(result0) == benc(iface(s)) && scval(s) == old(scval(s))
 //@ func (*Secp256k1Point).MarshalBinary
 //@   nopanic[C05]
 //@   requires p != nil
